@@ -17,6 +17,9 @@ func init() {
 // LITAB runs on every string over {a,b} up to the length bound (c never occurs in its patterns)
 var profLitAB = profile{name: "{a,b} only", input: []rune{'a', 'b'}}
 
+// the last BMP code point as a pattern letter (the Boyer-Moore tables are built per 16-bit page)
+var profLitFFFF = profile{name: "{a,U+FFFF} only", m: map[rune]rune{'b': 0xFFFF}, input: []rune{'a', 'b'}}
+
 var profCorpus = profile{name: "per-pattern inputs (short strings over the pattern's letters + witness neighbourhood, lang.go)"}
 
 func accelFamilies(thorough bool) (jobs []job) {
@@ -70,6 +73,8 @@ func accelFamilies(thorough bool) (jobs []job) {
 	litab := litABFamily(thorough)
 	add("LITAB", litab, "", profLitAB, 10)
 	add("LITAB", litab, "R", profLitAB, 9)
+	add("LITAB", litab, "", profLitFFFF, 7)
+	add("LITAB", litab, "R", profLitFFFF, 7)
 	for _, o := range []optSet{"", "G", "R"} {
 		L := 4
 		if o == "" {
